@@ -170,3 +170,16 @@ register('C13', 'translation_validation',
          "OperatorTemplate.apply (sys.intern realises symbolic strings; patched hash() fails on OperatorIR.__hash__), so "
          "that unit is a finite enumeration",
          "SMT translation validation after API histories in one process (symx + z3)", "7/C13")
+register('C17', 'translation_validation',
+         "The real grid_search runs with a _solve stub that captures the single compiled function of the combined "
+         "circuit and returns a tag matrix. Against the expected model - one independent copy of the base circuit per "
+         "grid row with that row's values as distinct symbols - z3 proves every state variable of copy r has exactly the "
+         "derivative of the single circuit with row r's parameters (the reference mentions only copy r's own state, so "
+         "equality also proves the copies are uncoupled). The tag matrix shows the column labelled (key, circuit r, node, "
+         "op/var) carries that variable; the returned parameter table must map circuit r to row r's values; extrinsic "
+         "inputs reach every copy (symbolic samples). Node parameters, several targets per key, edge attributes, row "
+         "order as given and reversed, vectorize on/off.",
+         "reals for floats; rows <= 3 (quick) / 5 (thorough), base circuit of 3 nodes; grids carry one extra key per state "
+         "variable so copies have distinct initial values; permute_grid is covered through linearize_grid (checked to "
+         "be the cartesian product) - the sweep itself is the same code path; plotting utilities outside",
+         "SMT translation validation of the function captured inside grid_search + tag flow (symx + z3)", "7/C17")
